@@ -96,7 +96,8 @@ let params_of (t : string list) : Sched.params = match t with
   | ["two"; p; bs; sg; tr] -> Sched.PTwo (z p, z bs, st_of sg, traj_of tr)
   | ["multi"; n; r; d; tr] -> Sched.PMulti (z n, z r, z d, traj_of tr)
   | ["mixed"; n; s; sg; path] -> Sched.PMixed (z n, z s, st_of sg, path = "tab")
-  | ["rev"; k; n; r; d; uf; ub; wd; rd] -> Sched.PRev (rk_of k, z n, z r, z d, z uf, z ub, z wd, z rd)
+  | ["rev"; k; n; r; d; uf; ub; wd; rd] | ["rev"; k; n; r; d; uf; ub; wd; rd; _] ->   (* 10th token: cost divisor, implementation side only *)
+      Sched.PRev (rk_of k, z n, z r, z d, z uf, z ub, z wd, z rd)
   | _ -> failwith ("params: " ^ S.concat " " t)
 let optz = function "-" -> None | s -> Some (z s)
 let op_of (s : string) : Sched.op =
